@@ -766,13 +766,13 @@ fn ring_of_cliques(specs: Specs, cliques: usize, size: usize, wclass: WClass, rn
 
 pub fn run_c13(a: &Args) {
     let kinds = kinds8();
-    let total: u64 = if a.thorough { 40_000 } else { 8_000 };
+    let total: u64 = if a.thorough { 3_000_000 } else { 240_000 };
     for idx in 0..total {
         if !ctx::mine(idx) {
             continue;
         }
         let mut rng = Rng::new(mix(a.seed ^ 0xC13, idx));
-        let wcl = [WClass::Unweighted, WClass::Exact, WClass::ExactWide];
+        let wcl = [WClass::Unweighted, WClass::Exact, WClass::ExactWide, WClass::Generic];
         let case = match idx % 10 {
             0 | 1 => {
                 let specs = *rng.pick(&kinds);
@@ -785,6 +785,18 @@ pub fn run_c13(a: &Args) {
                 let specs = Specs::kind(true, rng.coin(), rng.coin());
                 let fam: &'static str = if rng.coin() { "cycle" } else { "path" };
                 gen_case(specs, fam, rng.range(2, 40), *rng.pick(&wcl), &GenOpts { self_loops: rng.coin(), parallel: rng.coin(), shuffle_edges: true }, &mut rng)
+            }
+            3 | 4 | 5 | 6 | 7 => {
+                // small graphs with small integer weights: many exact ties and zero gains, nodes
+                // get stranded in communities whose other members they are not adjacent to
+                let specs = Specs::kind(rng.chance(1, 3), false, rng.coin());
+                let n = rng.range(4, 12);
+                let fam: &'static str = *rng.pick(&["gnp_sparse", "gnp_mid", "gnp_mid", "tree", "cycle", "barbell", "components"]);
+                let mut c = gen_case(specs, fam, n, WClass::Exact, &GenOpts { self_loops: true, parallel: false, shuffle_edges: true }, &mut rng);
+                for e in c.edges.iter_mut() {
+                    e.2 = rng.range(1, 5) as f64;
+                }
+                c
             }
             _ => random_case(&mut rng, 2, if a.thorough { 64 } else { 40 }, &kinds, &wcl),
         };
